@@ -3,7 +3,7 @@
 Domain : fault point in { none; one of 10 generation stages failed by wrapping the class method / module function from the
          harness; the k-th file write under the project root for EVERY k up to the number of writes of a fault-free run
          (injected through a sys.addaudithook on `open` in a write mode) }
-         x force {on, off} x existing tree {absent, equal, one file edited, partially present (core removed)}
+         x force {on, off} x existing tree {absent, equal, one client file edited, partially present (core removed), one core file edited}
          x layout {embedded core; sibling shared core; nested shared core depth 3; top-level `core`} x 3 documents.
          The project root is a sandbox seeded with sentinel files at every level (siblings of the output package and of the core,
          in ancestor packages, a look-alike `clix/` next to `cli/`).
@@ -60,8 +60,9 @@ LAYOUTS = {
     "nested_shared3": ("apis.v1.cli", "shared.rt.corepkg"),
     "toplevel_core": ("cli", "core"),
     "nested_embedded": ("apis.cli", None),
+    "prefix_sibling": ("billing", "billing_core"),  # the core's directory name starts with the client's
 }
-EXISTING = ["absent", "equal", "edited", "partial"]
+EXISTING = ["absent", "equal", "edited", "partial", "core_edited"]
 STAGES = ["fetch_spec", "load_ir_from_spec", "ExceptionsEmitter.emit", "CoreEmitter.emit", "ModelsEmitter.emit", "EndpointsEmitter.emit",
           "ClientEmitter.emit", "MocksEmitter.emit", "PostprocessManager.run", "_show_diffs"]
 
@@ -226,6 +227,9 @@ def run_case(case: dict) -> list[Violation]:
                     f.write("\n# local edit\n")
             elif case["existing"] == "partial":
                 shutil.rmtree(os.path.join(root, core_pkg.replace(".", "/")), ignore_errors=True)
+            elif case["existing"] == "core_edited":
+                with open(os.path.join(root, core_pkg.replace(".", "/"), "config.py"), "a") as f:
+                    f.write("\n# local edit\n")
         before = snapshot(root)
         fault = case.get("fault") or {}
         stage = fault.get("name") if fault.get("kind") == "stage" else None
@@ -253,7 +257,7 @@ def run_case(case: dict) -> list[Violation]:
             touching = [e for e in log]
             if touching:
                 viols.append(Violation(("noforce_wrote_under_project_root", fk.split(":")[0], case["existing"]), f"{mode} fault={fk}: {touching[:4]}"))
-            if raised is None and case["existing"] in ("edited", "partial"):
+            if raised is None and case["existing"] in ("edited", "partial", "core_edited"):
                 viols.append(Violation(("noforce_success_over_differing_tree", case["existing"]), f"{mode} fault={fk}"))
             if raised is None and fault:
                 if not (fault.get("kind") == "write"):  # a write fault can only fire if something is written
@@ -295,11 +299,11 @@ def run_shard(shard: dict) -> dict:
         base = {"layout": layout, "spec": spec, "force": force, "existing": existing, "fault": None}
         v = run_case(base)
         n_writes = base.get("_n_writes", 0)
-        col.record({k: x for k, x in base.items() if not k.startswith("_")}, v, existing in ("edited", "partial"), [f"fault_none", "force" if force else "noforce", "existing_" + existing])
+        col.record({k: x for k, x in base.items() if not k.startswith("_")}, v, existing in ("edited", "partial", "core_edited"), [f"fault_none", "force" if force else "noforce", "existing_" + existing])
         for st in STAGES:
             c = {**{k: x for k, x in base.items() if not k.startswith("_")}, "fault": {"kind": "stage", "name": st}}
             v = run_case(c)
-            nt = existing in ("edited", "partial") or st not in ("fetch_spec", "load_ir_from_spec")
+            nt = existing in ("edited", "partial", "core_edited") or st not in ("fetch_spec", "load_ir_from_spec")
             col.record({k: x for k, x in c.items() if not k.startswith("_")}, v, nt, ["fault_stage", "force" if force else "noforce", "existing_" + existing])
         ks = list(range(1, n_writes + 1))
         if shard["stride"] > 1:
@@ -307,7 +311,7 @@ def run_shard(shard: dict) -> dict:
         for k in ks:
             c = {**{kk: x for kk, x in base.items() if not kk.startswith("_")}, "fault": {"kind": "write", "k": k}}
             v = run_case(c)
-            col.record({kk: x for kk, x in c.items() if not kk.startswith("_")}, v, k > 1 or existing in ("edited", "partial"), ["fault_write", "force" if force else "noforce", "existing_" + existing])
+            col.record({kk: x for kk, x in c.items() if not kk.startswith("_")}, v, k > 1 or existing in ("edited", "partial", "core_edited"), ["fault_write", "force" if force else "noforce", "existing_" + existing])
         col.extra.setdefault("writes_in_fault_free_run", {})
         col.extra["writes_in_fault_free_run"][f"{layout}/{spec}/{'force' if force else 'noforce'}/{existing}"] = n_writes
     if shard["stride"] == 1:
